@@ -3,7 +3,8 @@
 Deciding step: complete enumeration of the declared path/grid lattice (vf.ref.c04_gridref.sublattices)
 on the real Gridder.grid_trajectory; every returned piece is re-summed per segment (pieces are
 grouped by a state variable carrying the segment number) and compared with the exact interval
-oracle (rational crossing parameters, own geodesic lengths).
+oracle (rational crossing parameters, own geodesic lengths): never less than the segment's value,
+never more than the value times the oracle's own map-line excess.
 """
 
 from __future__ import annotations
@@ -27,7 +28,7 @@ ASSUMPTIONS = [
     'shapely is not installed: AEIC.gridding.grid is imported with a harness-side stub for shapely.geometry.Polygon (only grid_polygon uses it)',
     'all points lie within [lowest grid line, highest grid line]; poles and more than one antimeridian crossing are excluded',
     'coordinates are multiples of 0.001 degree; nothing is claimed between lattice points',
-    'ordinary segment: sum of pieces / value must equal (sum of geodesic lengths of the oracle intersection polyline) / (geodesic length of the segment) to 1e-9',
+    'ordinary segment: sum of pieces / value must lie in [1, R] (to 1e-9), R = (sum of geodesic lengths of the oracle intersection polyline) / (geodesic length of the segment); R = 1 inside one cell',
     'antimeridian segment: sum of pieces / value must lie in [1 - 1e-9, 1 + 2e-3] (route across the antimeridian is not prescribed by the conservation clause)',
     'one long-lived Gridder per grid and worker (repeated calls on the same object)',
 ]
@@ -75,8 +76,8 @@ def conservation(ev):
                 what = f'antimeridian segment: allowed [{lo}, {hi}]'
             else:
                 r = sum(x['raw'] for x in ex['pieces'])
-                lo = hi = v * r
-                what = f'oracle ratio {r!r} over {len(ex["pieces"])} intervals'
+                lo, hi = v, v * max(r, 1.0)
+                what = f'allowed [{lo!r}, {hi!r}] (oracle map-line excess ratio {r!r} over {len(ex["pieces"])} intervals)'
             tol = RTOL * max(abs(v), 1e-300)
             lo_t += lo
             hi_t += hi
@@ -84,7 +85,7 @@ def conservation(ev):
                 vio.append(V('negative-piece', f'{where}: pieces {pcs.tolist()}'))
             if not (lo - tol <= ssum <= hi + tol):
                 f = None
-                if ex['zero'] and not s['am'] and v != 0 and ssum == 0.0:
+                if ex['zero'] and v != 0 and ssum == 0.0 and len(pcs):
                     f = 'C04-repeated-point-drops-value'
                 vio.append(V('segment-sum', f'{where}: pieces {pcs.tolist()} sum to {ssum!r}; {what}', finding=f))
                 seg_bad = True
